@@ -20,7 +20,7 @@ BOOLARR_FIELDS = ('bs',)
 MSG_FIELDS = {'m': {'x': 'num', 'ok': 'bool'}}
 ALIASES = ('A',)
 
-NUM_LITS = ('0', '1', '2', '3', '0.5', '1.5', '4', '10')
+NUM_LITS = ('0', '1', '2', '3', '0.5', '1.5', '4', '10', '1.0', '2.0')
 STR_LITS = ('""', '"a"', '"ab"')
 
 ARITH = ('+', '-', '*', '/', '**')
@@ -288,7 +288,9 @@ class ExprGen:
             return ('bin', '**', a, b)
         if s.coin('trig', self.trig_bias):
             # rule triggers: e op e, e op -e, literal identities, nested same-operator chains
-            c = s.choose('trigkind', 12)
+            c = s.choose('trigkind', 14)
+            if c >= 12:
+                return ('bin', op, a, variant(s, a))
             if c >= 9:
                 b = self.num(d + 2)
                 inv = {'+': '-', '-': '+', '*': '/', '/': '*'}.get(op, '-')
@@ -362,7 +364,9 @@ class ExprGen:
         op = s.weighted('conn', [(4, 'and'), (4, 'or'), (2, 'implies'), (2, 'iff')])
         a = self.boolean(d + 1)
         if s.coin('trigb', self.trig_bias):
-            c = s.choose('trigbkind', 11)
+            c = s.choose('trigbkind', 13)
+            if c >= 11:
+                return ('bin', op, a, variant(s, a)) if c == 11 else ('bin', op, ('un', 'not', a), variant(s, a))
             if c >= 8:
                 # two comparisons over the same operands, related by their operators
                 x, y = self.num(d + 2), (self.num(d + 2) if s.coin('rl', 0.5) else self.num_lit())
@@ -447,6 +451,8 @@ class ExprGen:
         if kind == 'num' and s.coin('trigshifte', self.trig_bias * 0.6):
             x, y = self.shifted_pair(a)
             return ('bin', op, x, y)
+        if s.coin('trigvariant', self.trig_bias * 0.4):
+            return ('bin', op, a, variant(s, a))
         if s.coin('trige', self.trig_bias):
             c = s.choose('trigekind', 6)
             if c == 0:
@@ -497,6 +503,35 @@ class ExprGen:
 ###############################################################################
 # Term utilities for shrinking
 ###############################################################################
+
+
+def variant(sim, t):
+    """A near-copy of a term: one local change that a too-coarse equality might not see (own field
+    vs. the same field of an alias, another index, a toggled range bound, 1 vs 1.0, -a vs a)."""
+    sites = [(path, sub) for path, sub in walk(t) if sub[0] in ('field', 'dot', 'idx', 'range', 'lit', 'un', 'neglit')]
+    if not sites:
+        return ('un', '-', t) if term_type(t) == 'num' else ('un', 'not', t)
+    path, sub = sim.pick('varsite', sites)
+    k = sub[0]
+    if k == 'field':
+        new = ('dot', ('var', 'A'), sub[1])
+    elif k == 'dot' and sub[1][0] == 'var':
+        new = ('field', sub[2]) if sub[2] not in MSG_FIELDS else sub
+    elif k == 'idx':
+        new = ('idx', sub[1], ('lit', 'num', '1') if sub[2] != ('lit', 'num', '1') else ('lit', 'num', '0'))
+    elif k == 'range':
+        new = ('range', sub[1], sub[2], not sub[3], sub[4]) if sim.coin('vr', 0.5) else ('range', sub[1], sub[2], sub[3], not sub[4])
+    elif k == 'lit' and sub[1] == 'num':
+        new = ('lit', 'num', {'1': '1.0', '1.0': '1', '2': '2.0', '2.0': '2', '0': '0.5'}.get(sub[2], '1'))
+    elif k == 'lit' and sub[1] == 'bool':
+        new = ('lit', 'bool', 'False' if sub[2] == 'True' else 'True')
+    elif k == 'un':
+        new = sub[2]
+    elif k == 'neglit':
+        new = ('lit', 'num', sub[1])
+    else:
+        new = sub
+    return replace_at(t, path, new)
 
 
 def has_reference(t):
@@ -773,8 +808,13 @@ def render_event(ev):
 def render_bound(ms):
     if ms is None:
         return ''
+    if isinstance(ms, float) and ms != int(ms):
+        return ' within %r ms' % ms
+    ms = int(ms)
     if ms % 1000 == 0:
         return ' within %d s' % (ms // 1000)
+    if ms % 500 == 0:
+        return ' within %r s' % (ms / 1000.0)
     return ' within %d ms' % ms
 
 
@@ -843,7 +883,16 @@ class PropGen:
         if may_alias and s.coin('alias?', 0.4):
             self.acount += 1
             alias = 'M%d' % self.acount
-        return ('ev', topic, alias, self.predicate(visible)), ([alias] if alias else [])
+        pred = self.predicate(visible)
+        if alias and s.coin('ownalias', 0.3):
+            # an event may refer to its own alias (it is rewritten to the message itself)
+            own = ('bin', s.pick('ownop', RELOPS + EQOPS), ('dot', ('var', alias), s.pick('ownf', NUM_FIELDS)), self.own_rhs())
+            pred = own if pred is None or pred[0] == 'lit' else ('bin', 'and', pred, own)
+        return ('ev', topic, alias, pred), ([alias] if alias else [])
+
+    def own_rhs(self):
+        s = self.sim
+        return ('field', s.pick('ownrf', NUM_FIELDS)) if s.coin('ownfield', 0.5) else ('lit', 'num', s.pick('ownlit', NUM_LITS))
 
     def event(self, visible, width=None, may_alias=True):
         s = self.sim
@@ -881,7 +930,7 @@ class PropGen:
         if scope in ('until', 'after_until'):
             # terminator sees only the activator's aliases, and must not rebind them
             term, _ = self.event(avis, may_alias=False)
-        bound = s.weighted('bound', [(4, None), (1, 1), (1, 50), (1, 100), (1, 1000), (1, 2500)])
+        bound = s.weighted('bound', [(4, None), (1, 1), (1, 50), (1, 100), (1, 1000), (1, 2500), (0.6, 0.5), (0.5, 0), (0.5, 1500), (0.4, 0.25)])
         meta = []
         if self.with_meta and s.coin('meta', 0.4):
             keys = ['id', 'title', 'description']
